@@ -75,6 +75,9 @@ contract(T + ".run", "C19",
              "success-means-all-completed": "implies(result.success, result.stages_completed == len(self._stages) and result.blocked_at is None "
                                             "and result.stages_completed <= len(result.stage_results))",
              "output-withheld-on-failure": "implies(not result.success, result.final_output is None)",
+             # with the per-stage clauses `gets-current-signal` and `composition` (each stage is fed the previous stage's output and the running
+             # signal becomes its own output) this is "the final output is the composition of the stage functions"
+             "successful-run-releases-the-last-stage-output": "implies(result.success, result.final_output is current_signal)",
              "amplification-clamped": "result.total_amplification <= max(self.max_amplification, 1.0)",
              "counts-reported": "result.stages_total == len(self._stages)",
          })
